@@ -80,3 +80,23 @@ Proof.
   - apply labels_okb_spec. vm_compute. reflexivity.
   - vm_compute. repeat split; reflexivity.
 Qed.
+
+(* the oracle on observations the model itself produces: clean run -> None, the two findings -> their codes *)
+Definition self_case (sc : list dstep) : c09_case :=
+  {| c_script := sc; c_obs := fst (model_obs {| c_script := sc; c_obs := []; c_events := [] |});
+     c_events := snd (model_obs {| c_script := sc; c_obs := []; c_events := [] |}) |}.
+Definition drain_script : list dstep :=
+  [DTick 40; DRetry EnvOk false; DRetry EnvOk false; DTick 40; DRetry EnvOk false; DRetry EnvOk false; DList].
+Definition sc_clean : list dstep :=
+  [DWrite (OCreate 0 v1) [] false false; DList; DWrite (OUpdate 0 v2 11) [EnvUnknown true false] false false;
+   DCompact 0; DWrite (ODelete 0 0) [EnvUnknown false false] false false; DList] ++ drain_script.
+Definition sc_F1 : list dstep :=
+  [DWrite (OCreate 0 v1) [] false false; DList; DWrite (OUpdate 0 v2 11) [EnvUnknown true false] false false;
+   DTick 40; DRetry (EnvUnknown false false) false] ++ drain_script.
+Definition sc_F2 : list dstep :=
+  [DWrite (OCreate 0 v1) [] false false; DList; DWrite (OUpdate 0 [] 11) [EnvUnknown true false] false false] ++ drain_script.
+Lemma oracle_on_model :
+  (c09_check (self_case sc_clean) = true /\ c09_oracle (self_case sc_clean) = None) /\
+  (c09_check (self_case sc_F1) = true /\ c09_oracle (self_case sc_F1) = Some 1) /\
+  (c09_check (self_case sc_F2) = true /\ c09_oracle (self_case sc_F2) = Some 2).
+Proof. vm_compute. repeat split; reflexivity. Qed.
